@@ -80,6 +80,8 @@ pub struct Pipe {
     pub peer_gone: bool,
     pub server_dropped: usize,
     pub bytes_read_by_server: usize,
+    /// injected fault: splitting this connection's stream into reader and writer fails (descriptor exhaustion)
+    pub split_fails: bool,
 }
 
 #[derive(Debug, Clone, PartialEq)]
@@ -619,6 +621,9 @@ impl Drop for ServerStream {
 }
 impl varlink::Stream for ServerStream {
     fn split(&mut self) -> varlink::Result<(Box<dyn Read + Send + Sync>, Box<dyn Write + Send + Sync>)> {
+        if self.sched.lock().pipes[self.id].split_fails {
+            return Err(varlink::context!(varlink::ErrorKind::Io(io::ErrorKind::Other)));
+        }
         Ok((
             Box::new(ServerStream { id: self.id, sched: self.sched.clone() }),
             Box::new(ServerStream { id: self.id, sched: self.sched.clone() }),
